@@ -647,6 +647,8 @@ ARG_RULES = {'R5all': rule_R5all, 'R20': rule_R20, 'R21': rule_R21, 'R4': rule_R
 
 # ---------------------------------------------------------------- function assembly
 
+NOINLINE = set()     # helpers whose inlined text did not compile: kept opaque
+INLINE = {}          # (file, fn name) -> (param names, param types, body text): straight-line contract-less helpers inlined at their call sites
 FORCE_STUB = set()   # (file, fn name, within): functions reduced to signature + contract (body not looked at) for this run
 RENAMES = {}     # (file, fn name, within) -> {old local / parameter name: new name}: set by bin/check when a rename is detected
 
@@ -748,6 +750,91 @@ def loop_statements(code):
     for lo, hi in outside_ranges: outside += stmts(lo, hi)
     return {'loops': loops, 'outside': sorted(outside)}
 
+def inlinable_helper(repo, file, name):
+    """a free private helper `fn name(p1: T1, ..) -> R { straight-line body }` with no `return`, no `?`, no loop, no closure, no
+    `self`, no generics: returns (param names, param types, body text without the outer braces), else None"""
+    try:
+        src = open(os.path.join(repo, file)).read()
+        it, n = find_item(src, 'fn', name, None)
+        if it is None or n != 1: return None
+        code = drop_comments(src[it.start:it.end])
+        toks = _tok_code(code)
+        kf = next(i for i, t in enumerate(toks) if t.kind == 'id' and t.text == 'fn')
+        if toks[kf + 2].text != '(': return None            # generics or odd shape
+        k = kf + 2; c = match_close(toks, k)
+        bo = _find_body_open(toks); bc = match_close(toks, bo)
+        banned = ('return', 'loop', 'while', 'for', 'self', 'Self', 'break', 'continue', 'unsafe', 'async', 'await', 'move')
+        for t in toks[bo:bc]:
+            if (t.kind == 'id' and t.text in banned) or t.text in ('?', '|', '||'): return None
+        if any(t.text in ('<',) for t in toks[kf:k]): return None
+        names = []; types = []; depth = 0; cur = []
+        for i in range(k + 1, c + 1):
+            t = toks[i]
+            if i == c or (t.text == ',' and depth == 0):
+                if cur:
+                    txt = code[cur[0].start:cur[-1].end]
+                    if ':' not in txt: return None
+                    nm, ty = txt.split(':', 1)
+                    nm = nm.strip()
+                    if nm.startswith('mut '): nm = nm[4:].strip()
+                    if not re.match(r'^[A-Za-z_][A-Za-z0-9_]*$', nm): return None
+                    names.append(nm); types.append(ty.strip())
+                cur = []
+                continue
+            if t.text in OPEN or t.text == '<': depth += 1
+            elif t.text in CLOSE or t.text == '>': depth -= 1
+            cur.append(t)
+        body = code[toks[bo].end:toks[bc].start]
+        return (names, types, body)
+    except Exception:
+        return None
+
+def _inline_helpers(text, file, fired):
+    """replace calls `helper(a, b)` of registered straight-line helpers of the same file by `{ let p1: T1 = a; let p2: T2 = b; BODY }`"""
+    for (hf, hn), (names, types, body) in INLINE.items():
+        if hf != file: continue
+        for _ in range(20):
+            toks = _tok_code(text)
+            site = None
+            for i, t in enumerate(toks):
+                if t.kind == 'id' and t.text == hn and i + 1 < len(toks) and toks[i + 1].text == '(' and not (i > 0 and toks[i - 1].text in ('fn', '.')):
+                    site = i; break
+            if site is None: break
+            # optional path prefix `Type::` / `Self::` / `crate::` before the name
+            st = site
+            while st >= 2 and toks[st - 1].text == '::' and toks[st - 2].kind == 'id': st -= 2
+            c = match_close(toks, site + 1)
+            args = []; depth = 0; last = toks[site + 1].end
+            for j in range(site + 2, c + 1):
+                tt = toks[j]
+                if j == c or (tt.text == ',' and depth == 0):
+                    a = text[last:tt.start].strip()
+                    if a: args.append(a)
+                    last = tt.end
+                    continue
+                if tt.text in OPEN: depth += 1
+                elif tt.text in CLOSE: depth -= 1
+            if len(args) != len(names): break
+            # an argument that is a plain identifier is substituted for its parameter (so the inlined text reads like the
+            # code it was extracted from); any other argument is bound once by a `let`
+            b2 = body.strip(); binds = []
+            for n_, ty, a in zip(names, types, args):
+                if a == n_: continue
+                if re.match(r'^[A-Za-z_][A-Za-z0-9_]*$', a) and not re.search(r'(?<![A-Za-z0-9_])%s(?![A-Za-z0-9_])' % re.escape(a), b2):
+                    b2 = re.sub(r'(?<![A-Za-z0-9_.])%s(?![A-Za-z0-9_])' % re.escape(n_), a, b2)
+                else:
+                    binds.append('let %s: %s = %s;' % (n_, ty, a))
+            prev_t = toks[st - 1].text if st > 0 else '{'
+            next_t = toks[c + 1].text if c + 1 < len(toks) else ';'
+            whole = prev_t in ('=', '(', ',', '{', ';', 'return') and next_t in (';', ',', ')', '}')
+            if not binds and ';' not in b2 and whole:
+                rep = b2                      # a single expression standing where a complete operand stood: no wrapping needed
+            else:
+                rep = '{ ' + ' '.join(binds) + ' ' + b2 + ' }'
+            text = text[:toks[st].start] + rep + text[toks[c].end:]
+            fired.append('R22:inline %s' % hn)
+    return text
+
 def _apply_renames(fs):
     m = RENAMES.get((fs.file, fs.name, fs.within))
     if not m: return fs
@@ -841,6 +928,8 @@ def assemble_fn(repo, fs, record, canary=None, stub=False, soft=None):
     text = drop_comments(raw)
     text = strip_attrs(text, fired)
     sha = hashlib.sha256(raw.encode()).hexdigest()
+    if INLINE and not stub:
+        text = _inline_helpers(text, fs.file, fired)
     for rid, rf in AUTO_RULES:
         text = rf(text, [], fired)
     for rule, args in fs.rw:
